@@ -156,7 +156,18 @@ def main(argv):
             if der:
                 dout = vlib.run_model([d["req"] for d in der])
                 for d, o in zip(der, dout):
-                    if o != d["expect"]:
+                    if "check" in d:
+                        res = d["check"](o)      # None | ("known", id) | ("violation", why) | ("model", why)
+                        if res is None:
+                            continue
+                        if res[0] == "known":
+                            seen_known.setdefault(res[1], (st, d, o, ""))
+                        elif res[0] == "violation":
+                            d = dict(d); d["why"] = res[1]; d.setdefault("expect", "(see why)")
+                            derived_violations.append((st, d, o))
+                        else:
+                            corr_breaks.append((st, d.get("index", 0), res[1], o))
+                    elif o != d["expect"]:
                         if d.get("kind") == "spec":
                             derived_violations.append((st, d, o))
                         else:
